@@ -477,6 +477,55 @@ func generate(c *drv.Ctx) {
 		}
 	}
 	c.Extra["wire_declarations"] = nWire
+	// (4c) the same key in the opposite location: a query string next to a form body (formData parameters must be read
+	// from the body only), a form body next to the query string (query parameters from the URL only)
+	nCross := 0
+	crossKinds := []kind{{"integer", "int32"}, {"string", ""}, {"boolean", ""}, {"number", "double"}, {"string", "date"}}
+	alt := map[string][2]string{"integer": {"7", "-3"}, "string": {"zz", "q"}, "boolean": {"false", "true"}, "number": {"2.5", "7"}}
+	for _, l := range []loc{{"formData", "urlencoded"}, {"formData", "multipart"}, {"query", ""}} {
+		oencs := []string{""}
+		if l.In == "query" {
+			oencs = []string{"urlencoded", "multipart"}
+		}
+		for _, k := range crossKinds {
+			a := alt[k.T]
+			if k.F == "date" {
+				a = [2]string{"1999-12-31", "2024-02-29"}
+			}
+			good, bad := goodText(k.T, k.F), badText(k.T, k.F)
+			for _, arr := range []string{"", "multi", "csv"} {
+				for _, f := range allFlags(l, false) {
+					if !thorough && f.AE && arr != "" {
+						continue
+					}
+					d := Decl{In: l.In, Enc: l.Enc, Name: declName(l), Type: k.T, Format: k.F, Required: f.Req, HasDef: f.Def, AllowEmpty: f.AE, Val: noVal()}
+					if arr != "" {
+						d.Type, d.Format, d.IType, d.IFmt, d.CF = "array", "", k.T, k.F, arr
+					}
+					if f.Def {
+						d.Def = []string{good}
+						if arr != "" {
+							d.Def = []string{good, good}
+						}
+					}
+					own := [][]Pair{nil, {{K: d.Name, V: good}}, {{K: d.Name, V: bad}}, {{K: d.Name, V: ""}}, {{K: d.Name, V: good}, {K: d.Name, V: a[1]}}}
+					others := [][]Pair{{{K: d.Name, V: a[0]}}, {{K: d.Name, V: bad}}, {{K: d.Name, V: ""}}, {{K: d.Name, V: a[0]}, {K: d.Name, V: a[1]}},
+						{{K: d.Name + "x", V: a[0]}}}
+					var reqs []Req
+					for _, oe := range oencs {
+						for _, o := range own {
+							for _, ot := range others {
+								reqs = append(reqs, Req{Pairs: o, Other: ot, OEnc: oe})
+							}
+						}
+					}
+					c.Case(bindCase(d, reqs))
+					nCross++
+				}
+			}
+		}
+	}
+	c.Extra["cross_location_declarations"] = nCross
 	// (5) files
 	for _, f := range []flags{{false, false, false}, {true, false, false}} {
 		d := Decl{In: "formData", Enc: "multipart", Name: "up", Type: "file", Required: f.Req, Val: noVal()}
@@ -492,7 +541,7 @@ func generate(c *drv.Ctx) {
 	// (6) seeded random declarations and literals
 	n := 1500
 	if thorough {
-		n = 50000
+		n = 30000
 	}
 	for i := 0; i < n; i++ {
 		c.Case(randomCase(c.Rng))
@@ -683,7 +732,20 @@ func randomCase(r *rand.Rand) M {
 			}
 			ps = append(ps, Pair{K: key, V: t})
 		}
-		reqs = append(reqs, Req{Pairs: ps})
+		rq := Req{Pairs: ps}
+		if (d.In == "formData" || d.In == "query") && r.Intn(3) == 0 {
+			for m := 1 + r.Intn(2); m > 0; m-- {
+				key := d.Name
+				if r.Intn(5) == 0 {
+					key = otherKeys(d)[r.Intn(len(otherKeys(d)))]
+				}
+				rq.Other = append(rq.Other, Pair{K: key, V: mk()})
+			}
+			if d.In == "query" {
+				rq.OEnc = []string{"urlencoded", "multipart"}[r.Intn(2)]
+			}
+		}
+		reqs = append(reqs, rq)
 	}
 	return bindCase(d, reqs)
 }
